@@ -34,7 +34,7 @@ RULES = [
 OC, OS = '__CPROVER_POINTER_OFFSET(cur)', '__CPROVER_POINTER_OFFSET(sb)'
 LOOP = '''__CPROVER_assigns(cur, sb, vx_mon, vx_exp_len, vx_exp_w, vx_saw_escape, vx_unspec, position_, more_, vx_err_called, vx_err_code, vx_sbuf_len, vx_act_w)
   __CPROVER_loop_invariant(__CPROVER_same_object(cur, vx_buf) && __CPROVER_same_object(sb, vx_buf) && vx_off <= %s && %s <= %s && %s <= vx_n
-      && vx_mon.st == STR_TEXT && *ec_p == 0 && vx_event == 0 && !vx_cut && !vx_err_called && more_
+      && vx_mon.st == STR_TEXT && *ec_p == 0 && vx_event == 0 && !vx_cut && !vx_err_called && more_ && vx_sbuf_len <= SIZE_MAX / 4
       && (escape_tag_ == semantic_tag_noesc ==> !vx_saw_escape)
       && VX_CONSISTENT(%s, %s))
   __CPROVER_decreases(vx_n - %s)''' % (OS, OS, OC, OC, OS, OC, OC)
